@@ -233,16 +233,24 @@ func constStringArgsStop(fn *ssa.Function, match func(string) bool, argIdx int, 
 // constant member names deleted on the way, the number of deletions under a non-constant
 // name, the names of the calls passed through and whether every origin satisfies isOrigin.
 func strippedChain(v ssa.Value, isOrigin func(ssa.Value) bool, through map[string][]int) (keys map[string]bool, nonConst int, passed map[string]bool, ok bool) {
+	keys, nonConst, passed, t := strippedChain3(v, nil, nil, isOrigin, through)
+	return keys, nonConst, passed, t == fw.Yes
+}
+
+// strippedChain3 is strippedChain for a value in frame fr consumed by `use`, with a
+// three-valued answer for "every origin satisfies isOrigin".
+func strippedChain3(v ssa.Value, fr *fw.Frame, use ssa.Instruction, isOrigin func(ssa.Value) bool, through map[string][]int) (keys map[string]bool, nonConst int, passed map[string]bool, ok fw.Tri) {
 	keys = map[string]bool{}
 	passed = map[string]bool{}
 	thr := map[string][]int{"github.com/tidwall/sjson.DeleteBytes": {0}}
 	for k, v := range through {
 		thr[k] = v
 	}
-	ok = fw.DerivesFrom(v, fw.FlowSpec{
+	ok = fw.Derives3In(v, fr, fw.FlowSpec{
 		IsSource: isOrigin,
 		Through:  fw.ThroughNames(thr),
 		All:      true,
+		Use:      use,
 		Visit: func(call ssa.CallInstruction, fr *fw.Frame) {
 			n := fw.CalleeName(call)
 			passed[n] = true
@@ -336,4 +344,37 @@ func regionCallsTo(fn *ssa.Function, match func(string) bool) []ssa.CallInstruct
 		out = append(out, fw.CallsTo(f, false, match)...)
 	}
 	return out
+}
+
+// rootOf resolves a value living in frame fr through helper parameters (to the argument at the
+// call site, repeatedly), conversions and loads that directly follow their store.
+func rootOf(v ssa.Value, fr *fw.Frame) (ssa.Value, *fw.Frame) {
+	for i := 0; i < 12; i++ {
+		v = fw.Unwrap(v)
+		if o := fw.LoadOrigin(v); o != v {
+			v = o
+			continue
+		}
+		p, ok := v.(*ssa.Parameter)
+		if !ok {
+			break
+		}
+		arg, ok := fr.ArgOf(p)
+		if !ok {
+			break
+		}
+		v, fr = arg, fr.Parent
+	}
+	return v, fr
+}
+
+// isParamDeep: v (in frame fr) is parameter #idx of the root function fn.
+func isParamDeep(v ssa.Value, fr *fw.Frame, fn *ssa.Function, idx int) bool {
+	r, rf := rootOf(v, fr)
+	return rf == nil && isParam(r, fn, idx)
+}
+
+// deepCallsTo lists calls matching `match` in fn and the unexported helpers it calls, with frames.
+func deepCallsTo(fn *ssa.Function, match func(string) bool) []fw.DeepCall {
+	return fw.DeepCalls(fn, match, stopExported)
 }
